@@ -19,6 +19,9 @@ assert os.path.realpath(fm.__file__).startswith(os.path.realpath(REPO_SRC)), (
     "finam not imported from the working tree: " + fm.__file__
 )
 
+# logging is not a subject of any property: switch it off globally (ErrorLogger would otherwise print every expected refusal)
+logging.disable(logging.CRITICAL)
+
 T0 = datetime(2000, 1, 1)
 
 
